@@ -21,7 +21,8 @@ RULE = (
     "jump) or one deferred-choice group. Pair scenario: StartStage(sibling1) x StartStage(sibling2) from the cut point "
     "where both are pending, every schedule with <= 2 preemptions; whole-workflow runs with 3 workers under random / PCT "
     "schedules plus a thread running cleanup_completed_stage_claims() and cleanup_old_processed_messages() at arbitrary "
-    "yield points; delivery-engine schedules (reorder, withheld acks) for the surrounding workflow. Oracle per commit "
+    "yield points; delivery-engine schedules (reorder, withheld acks) for the surrounding workflow, also with a retention "
+    "sweep and an operator restart of a sibling of the decided group after the workflow finished. Oracle per commit "
     "group of the audit log: <= 1 RUNNING stage per mutex key; a claim row changes owner only when the previous owner "
     "is complete; at quiescence every mutex stage has run; per choice group exactly one stage ever left NOT_STARTED "
     "for RUNNING and all others are CANCELED. Non-trivial = schedule with a switch inside the race (or delivery "
@@ -287,6 +288,12 @@ def _delivery(case: dict) -> dict:
     ref = delivery_run(spec, max_steps=60 if parked else 1500)  # a parked holder keeps its waiter polling: no quiescence without the signal
     for j in range(case["nsched"]):
         inj = [{"at": rng.randrange(1, max(2, ref.steps)), "do": "retention"}] if j % 3 == 0 else []
+        if spec.get("choice") and j % 3 == 1:
+            # after the workflow finished: retention sweep (claim rows of finished stages go away), then an operator
+            # restart of one sibling of the decided group - the decision must survive the sweep
+            sib = rng.choice(sorted(next(iter(spec["choice"].values()))))
+            inj = list(inj) + [{"at": ref.steps + rng.randrange(1, 12), "do": "retention"}, {"at": ref.steps + rng.randrange(12, 30), "do": "restart_stage", "ref": sib}]
+            obs["restart_after_retention_sweep"] += 1
         if "suspend" in spec["name"]:
             # the signal that resumes the parked holder arrives at some later moment
             inj = list(inj) + [{"at": rng.randrange(8, 70), "do": "signal", "ref": "m1", "persistent": True, "id": "s"}]
